@@ -23,7 +23,7 @@ BOUNDS = dict(quick='L1 (stubbed kernels, all kernel behaviours): n <= 5, Distan
               thorough='L1: n <= 6 (rdp, grdp: 7); L0: 12 pool curves, one and two symbolic heights, all metric/distance/order combinations')
 ASSUMPTIONS = ['exact real arithmetic in L0/L1 (T1); float64 only through the L2 lemma and the replays',
                'L1 stubs are contract-free apart from D >= 0 and score >= 0 (see stubs)', 'y >= 0, x strictly increasing']
-CONFIG = dict(quick=dict(budget_s=170, case_wall_s=150, max_paths=30000), thorough=dict(budget_s=900, case_wall_s=700, max_paths=600000))
+CONFIG = dict(quick=dict(budget_s=170, case_wall_s=150, max_paths=30000), thorough=dict(max_cases=900, budget_s=900, case_wall_s=700, max_paths=600000))
 VALIDATE_PATHS = True
 REPORT_KEYS = ['fn', 'layer']
 DIST = ['shortest', 'perpendicular']
